@@ -708,6 +708,10 @@ def d4(ctx: Ctx):
                 msg = f"header announces {wn} x {hn}, the loops write {written!r}{where}: equal only if {' and '.join(unmet)}, which the option validator (check_positive) does not ensure"
                 fb = []
             key = dec if not fb else f"{dec}.file-field"
+            if equal and unmet:
+                # the parked defect is "an option value the validator admits breaks divisibility"; any other
+                # disagreement of the same decoder keeps the plain key and is reported separately
+                key = f"{dec}.divisible-by-" + "-".join(sorted(re.match(r"\d+", u).group(0) if re.match(r"\d+", u) else "x" for u in unmet))
             if fb:
                 # the field is unvalidated (a finding of its own); independently of that, a well-formed file -
                 # one whose field has its nominal value - must get exactly the announced count
@@ -947,7 +951,7 @@ def _ordinal_read(fn: ast.FunctionDef, call: ast.Call) -> int:
 # D6 COUNTER-GUARD
 
 
-@rule("D6", "COUNTER-GUARD: a remaining-sample counter cannot be overshot, and a data-driven stop while it is positive fails", ["C19"], floor=2)
+@rule("D6", "COUNTER-GUARD: a remaining-sample counter cannot be overshot, and a data-driven stop while it is positive fails", ["C19", "C18", "C17"], floor=2, default_props=["C19"])
 def d6(ctx: Ctx):
     D = decoderfacts(ctx)
     found = 0
@@ -993,6 +997,22 @@ def d6(ctx: Ctx):
                             file=rel,
                             line=guard.lineno,
                         )
+                    if guard is not None:
+                        # the sample of this iteration is written before the counter that accounts for it is tested
+                        body = fl.body
+                        idx_w = next((k_ for k_, b_ in enumerate(body) if isinstance(b_, ast.Expr) and isinstance(b_.value, ast.Call) and b_ is not st and _decrement_target(b_) is None), None)
+                        idx_d = next((k_ for k_, b_ in enumerate(body) if any(x is st for x in ast.walk(b_))), None)
+                        idx_g = next((k_ for k_, b_ in enumerate(body) if b_ is guard), None)
+                        if idx_w is not None and idx_d is not None and idx_g is not None:
+                            oko = idx_w < idx_g and idx_d < idx_g
+                            ctx.ob(
+                                f"{dec}.repeat-guard:order",
+                                oko,
+                                "" if oko else f"the test `if {unparse(guard.test)}: break` runs before the sample of the same iteration is written: the byte that completes the picture is counted but never written, the image is short of what the header announces",
+                                file=rel,
+                                line=guard.lineno,
+                                props=["C18", "C19"],
+                            )
                     ctx.ob(
                         f"{dec}.repeat-guard",
                         ok_b,
@@ -1110,6 +1130,63 @@ def d7(ctx: Ctx):
                 if refuses:
                     gates += 1
         ctx.ob(f"{dec}:format-check", gates >= want, "" if gates >= want else f"{dec} has {gates} header checks that refuse the file, {want} expected: files of another format are decoded to garbage", file=DECODERS[dec], line=fn.lineno)
+    # a header field is validated where it is read: no option decides whether the check runs
+    for dec in ("mgetoppm", "rattoppm", "maxtoppm", "cm3toppm"):
+        fn = D.fn(dec, "convert")
+        rel = DECODERS[dec]
+        blocks: Dict[int, List[ast.stmt]] = {}
+
+        def index(stmts):
+            for st in stmts:
+                blocks[id(st)] = stmts
+                for fld in ("body", "orelse", "finalbody"):
+                    sub = getattr(st, fld, None)
+                    if isinstance(sub, list) and sub and isinstance(sub[0], ast.stmt) and not isinstance(st, ast.FunctionDef):
+                        index(sub)
+
+        index(fn.body)
+        k = 0
+        par_stmt: Dict[int, ast.stmt] = {}
+        for st in ast.walk(fn):
+            for fld in ("body", "orelse", "finalbody"):
+                sub = getattr(st, fld, None)
+                if isinstance(sub, list):
+                    for c_ in sub:
+                        if isinstance(c_, ast.stmt):
+                            par_stmt[id(c_)] = st
+
+        def enclosing_blocks(st):
+            out = []
+            x = st
+            while id(x) in blocks:
+                out.append(blocks[id(x)])
+                x = par_stmt.get(id(x))
+                if x is None or x is fn:
+                    break
+            return out
+
+        for g in [n for n in ast.walk(fn) if isinstance(n, ast.If) and id(n) in blocks and isinstance(n.test, ast.Compare)]:
+            refuses = any(isinstance(x, ast.Raise) or (isinstance(x, ast.Call) and call_name(x) == "exit") or (isinstance(x, ast.Return) and isinstance(x.value, ast.Constant) and x.value.value is False) for b in g.body for x in ast.walk(b))
+            if not refuses:
+                continue
+            blk = blocks[id(g)]
+            for nm in sorted(names_loaded(g.test)):
+                # nearest assignment of nm from file data that precedes the gate
+                defs = [a for a in ast.walk(fn) if isinstance(a, ast.Assign) and id(a) in blocks and a.lineno < g.lineno and any(isinstance(t, ast.Name) and t.id == nm for t in a.targets) and (_read_call(a.value) is not None or any(isinstance(x, ast.Subscript) and isinstance(x.value, ast.Name) and x.value.id != nm and any(isinstance(a2, ast.Assign) and _read_call(a2.value) is not None and any(isinstance(t2, ast.Name) and t2.id == x.value.id for t2 in a2.targets) for a2 in ast.walk(fn)) for x in ast.walk(a.value)))]
+                encl = enclosing_blocks(g)
+                defs = [a for a in defs if any(blocks[id(a)] is b_ for b_ in encl)]  # definitions that reach the gate
+                if not defs:
+                    continue
+                d = max(defs, key=lambda a: a.lineno)
+                k += 1
+                same = blocks[id(d)] is blk
+                ctx.ob(
+                    f"{dec}:check-where-read#{k}",
+                    same,
+                    "" if same else f"the refusal `if {unparse(g.test)}` tests header data read at line {d.lineno} but sits inside a further condition (line {g.lineno}): for the other option values the damaged header is accepted silently and the decoder reports success",
+                    file=rel,
+                    line=g.lineno,
+                )
     # veftopng: type check before anything is written
     st = D.fn("veftopng", "start")
     exits = [n.lineno for n in ast.walk(st) if isinstance(n, ast.Call) and call_name(n) == "exit"]
@@ -1384,3 +1461,86 @@ def d14(ctx: Ctx):
                     walk(st.body, in_loop)
 
         walk(fn.body, False)
+
+
+@rule("D16", "STDOUT-CLEAN: a decoder that can send the image to standard output writes nothing else there (diagnostics go to standard error)", ["C18"], floor=6)
+def d16(ctx: Ctx):
+    D = decoderfacts(ctx)
+    for dec in ("hrstoppm", "maxtoppm", "pixtopgm", "mgetoppm", "cm3toppm", "rattoppm"):
+        rel = DECODERS[dec]
+        m = D.mods[dec]
+        bad = []
+        for c in ast.walk(m.tree):
+            if isinstance(c, ast.Call) and isinstance(c.func, ast.Name) and c.func.id == "print":
+                f = next((k.value for k in c.keywords if k.arg == "file"), None)
+                if f is None or unparse(f) in ("sys.stdout", "sys.__stdout__"):
+                    bad.append(c)
+            if isinstance(c, ast.Call) and isinstance(c.func, ast.Attribute) and c.func.attr in ("write", "writelines") and unparse(c.func.value) in ("sys.stdout", "sys.stdout.buffer", "sys.__stdout__"):
+                bad.append(c)
+        ok = not bad
+        ctx.ob(
+            dec,
+            ok,
+            "" if ok else f"`{unparse(bad[0])[:80]}` writes to standard output, which carries the picture when no output file is named: the piped image gets extra bytes and differs from the file written for the same input",
+            file=rel,
+            line=bad[0].lineno if bad else 1,
+        )
+
+
+MGE_LAYOUT = {"palette-kind": 17, "compression": 18}  # ColorMax 3 MGE header: type, 16 palette bytes, RGB/CMP flag, compression flag, 30 title bytes ...
+
+
+@rule("D15", "HEADER-LAYOUT: the MGE header fields are read from the offsets the format assigns to them (palette kind at 17, compression flag at 18)", ["C16", "C17"], floor=2)
+def d15(ctx: Ctx):
+    D = decoderfacts(ctx)
+    fn = D.fn("mgetoppm", "convert")
+    rel = DECODERS["mgetoppm"]
+    outs = _out_names(fn)
+    # header reads in statement order, with their sizes
+    off = 0
+    offsets: Dict[str, int] = {}
+    for st in fn.body:
+        if isinstance(st, ast.FunctionDef) or (isinstance(st, ast.If) and all(isinstance(b, ast.FunctionDef) for b in st.body + st.orelse)):
+            continue
+        if any(_is_out_write(c, outs) for c in ast.walk(st)):
+            break
+        reads = [c for c in ast.walk(st) if isinstance(c, ast.Call) and call_name(c) == "read" and isinstance(c.func, ast.Attribute)]
+        if not reads:
+            continue
+        ctx.need(len(reads) == 1 and not isinstance(st, (ast.For, ast.While, ast.If)), "mgetoppm.header", f"header read at line {st.lineno} is not a plain statement (cannot lay out the header)")
+        rd = reads[0]
+        size = rd.args[0].value if rd.args and isinstance(rd.args[0], ast.Constant) else None
+        ctx.need(isinstance(size, int), "mgetoppm.header", f"read size at line {st.lineno} is not a constant")
+        mult = 1
+        for c in ast.walk(st):
+            if isinstance(c, ast.ListComp) and any(x is rd for x in ast.walk(c)):
+                it = c.generators[0].iter
+                ctx.need(isinstance(it, ast.Call) and call_name(it) == "range" and len(it.args) == 1 and isinstance(it.args[0], ast.Constant), "mgetoppm.header", "list comprehension over reads without a constant range")
+                mult = it.args[0].value
+        if isinstance(st, ast.Assign) and isinstance(st.targets[0], ast.Name) and mult == 1 and size == 1:
+            offsets[st.targets[0].id] = off  # the latest single-byte read a name holds
+        off += size * mult
+    # roles
+    tables64 = {t.targets[0].id for t in ast.walk(fn) if isinstance(t, ast.Assign) and isinstance(t.targets[0], ast.Name) and isinstance(t.value, ast.List) and len(t.value.elts) == 64}
+    role_var: Dict[str, str] = {}
+    for n in ast.walk(fn):
+        if not isinstance(n, ast.If):
+            continue
+        tv = [x for x in names_loaded(n.test) if x in offsets]
+        if len(tv) != 1:
+            continue
+        if any(isinstance(s_, ast.Subscript) and isinstance(s_.value, ast.Name) and s_.value.id in tables64 for b in n.body + n.orelse for s_ in ast.walk(b)):
+            role_var.setdefault("palette-kind", tv[0])
+        if any(isinstance(s_, ast.While) for b in n.body + n.orelse for s_ in ast.walk(b)) and any(isinstance(s_, ast.For) for b in n.body + n.orelse for s_ in ast.walk(b)):
+            role_var.setdefault("compression", tv[0])
+    for role, want in MGE_LAYOUT.items():
+        ctx.need(role in role_var, f"mgetoppm.{role}", "the header flag with this role was not recognised")
+        got = offsets[role_var[role]]
+        ok = got == want
+        ctx.ob(
+            f"mgetoppm.{role}",
+            ok,
+            "" if ok else f"the {role} flag is read from header offset {got}; the MGE format has it at offset {want}: RGB pictures are pushed through the composite table and/or raw pictures are decoded as run-length data whenever the two flag bytes differ",
+            file=rel,
+            line=fn.lineno,
+        )
